@@ -102,6 +102,14 @@ class C12(Prop):
                      'actions': [['start']] + [['tick']] * 8 + [['cancelJ']] + [['tick']] * 24}
                     for pol in ('all', 'any', 'object') for mode in ('join', 'aexit') for r1 in ('spawnd', 'spawn', 'slow')
                     for d2 in (False, True) for wrap in ([], ['timeout'])]
+        # directed: the cancellation lands in the window between a member's completion and the joining task's next
+        # step - before / after the member's done-callback has queued it and released the semaphore
+        directed += [{'policy': pol, 'mode': mode, 'retain': False, 'init': [], 'tg': True, 'wrap': wrap,
+                      'members': [{'react': 'reraise', 'daemon': False}] * nm,
+                      'actions': [['start']] + [['tick']] * 8 + [x for i in range(nm - 1) for x in (['finish', 0, ['ret', 1]], ['tick'], ['tick'], ['tick'])]
+                                 + [['finish', 0, ['ret', 1]]] + [['tick']] * w + [['cancelJ']] + [['tick']] * 24}
+                     for pol in ('all', 'any', 'object') for mode in ('join', 'aexit') for nm in (1, 2)
+                     for w in (0, 1, 2, 3) for wrap in ([], ['ignore'])]
         for k in range(n + len(directed)):
             if k < len(directed):
                 case = directed[k]
@@ -125,7 +133,7 @@ class C12(Prop):
                 hit += 1
             if cl:
                 out.append(Failure(case, obs, cl))
-                if len(out) >= 3:
+                if sum(1 for f in out if not self.classify(f.case, f.observed, f.clause)) >= 3:
                     break
         ctx['notes'].append(f'group joins inside timeout blocks: {n} programs on the real TaskGroup, {hit} with the joining task '
                             'ending cancelled after an external cancel')
